@@ -5,6 +5,7 @@ import (
 	"math"
 	"math/big"
 	"sort"
+	"strconv"
 
 	"github.com/apache/yunikorn-core/pkg/common/resources"
 )
@@ -332,6 +333,11 @@ func (c *Ctx) genQuantityString() string {
 		"9223372036854", "8", "9", "8191", "8192", "18446744073709551616", "99999999999999999999", "9007199254740993", "", "-1", "+1", "1.5", "1e3", "0x10", "１２"}
 	spaces := []string{"", "", "", " ", "  ", "\t", "\n", " ", " ", "\v", "\f", "\r", "\u0085"}
 	var num string
+	if c.chance(0.3) {
+		// small numbers with large suffixes: products around the int64 boundary (also after the x1000 for milli-units)
+		big := []string{"P", "E", "Pi", "Ei", "T", "Ti", "G"}
+		return spaces[c.pick(len(spaces))] + strconv.Itoa(c.pick(12000)>>uint(c.pick(12))) + spaces[c.pick(4)] + big[c.pick(len(big))]
+	}
 	if c.chance(0.4) {
 		// random digits of random length
 		n := 1 + c.pick(20)
